@@ -1,7 +1,7 @@
 """Contracts for FakeSnowflakeCursor._execute / execute / executemany / _rewrite_with_params / description (C03 C04 C05 C06 C07 C08 C13 C16)."""
 from __future__ import annotations
 
-from pyvc.types import DictT, ListT, NoneType, Opt, TupleT
+from pyvc.types import DictT, ListT, NoneType, Opt, TupleT, UnionT
 from pyvc.world import Contract
 
 
@@ -104,15 +104,13 @@ def install(w):
                 # bookkeeping arguments have the shapes their transforms give them
                 f"{A_('table_comment')} is None or (is_tuple({A_('table_comment')}) and seq_len({A_('table_comment')}) == 2 and isinstance(seq_at({A_('table_comment')}, 0), exp.Table) and isinstance(seq_at({A_('table_comment')}, 1), str))",
                 f"{A_('text_lengths')} is None or is_list({A_('text_lengths')})",
-                # the DuckDB text of an INSERT / UPDATE / DELETE statement is such a statement (A-SQLGLOT 5)
-                f"implies(not {SPECIAL} and {CMD} in ('INSERT', 'UPDATE', 'DELETE'), duck_dml({SQL}))",
                 # COMMIT / ROLLBACK carry none of the bookkeeping arguments and are not DESCRIBE/DDL statements
-                f"implies(duck_txn_end({SQL}), {CMD} in ('COMMIT', 'ROLLBACK') and not {SPECIAL} and not {A_('table_comment')} and not {A_('text_lengths')} and not {A_('seed')})",
-                f"implies({CMD} in ('INSERT', 'UPDATE', 'DELETE'), not {A_('table_comment')} and not {A_('text_lengths')})",
+                f"implies({CMD} in ('COMMIT', 'ROLLBACK'), not {SPECIAL} and not {A_('table_comment')} and not {A_('text_lengths')} and not {A_('seed')})",
+                f"implies({CMD} in ('INSERT', 'UPDATE', 'DELETE'), not {SPECIAL} and not {A_('table_comment')} and not {A_('text_lengths')})",
                 "self._duck_conn is self._conn._duck_conn",
             ],
             result=NoneType,
-            modifies=cur_fields + ctx_fields + duck_ghosts + ["*.$len", "*.$el"],
+            modifies=cur_fields + ctx_fields + duck_ghosts,
             raises={
                 AssertionError: {"when": None, "ensures": {"C05.replace.reset_on_assert": RESET}, "modifies": cur_fields + ctx_fields + duck_ghosts, "frame": True},
                 sferr.ProgrammingError: {
@@ -164,6 +162,11 @@ def install(w):
                 "C04.status.database": f"implies(not {A_('set_database')} and not {A_('set_schema')} and bool({A_('create_db_name')}), trace_at(trace_len() - 1) == ddl_status_sql('CREATE DATABASE', {A_('create_db_name')}))",
                 # C06: the statement description will describe is the one whose result the cursor holds
                 "C06.describable.is_last": "self._last_sql == trace_at(trace_len() - 1) or trace_len() == old(trace_len())",
+                # the statement itself is what is executed first (with the seed prefix for seeded RANDOM / SAMPLE)
+                "C16.main_sql": f"implies(not {CMD} in ('COMMIT', 'ROLLBACK') and not {A_('seed')}, trace_at(old(trace_len())) == {SQL})",
+                "C02.tx.monotone": "tx_len() >= old(tx_len())",
+                "C16.executed": "trace_len() >= old(trace_len()) + 1",
+                "C16.single_statement": f"implies({CMD} == 'SELECT' and not {SPECIAL} and not {A_('table_comment')} and not {A_('text_lengths')}, trace_len() <= old(trace_len()) + 1)",
                 "C10.macro.bootstrap": f"implies(not {A_('set_database')} and not {A_('set_schema')} and bool({A_('create_db_name')}), bootstrapped(upper({A_('create_db_name')})))",
                 "C05.replace.table": "is_fresh(self._arrow_table) and self._arrow_table_fetch_index is None",
                 "C04.rowcount.query": "implies(not is_dml_count(transformed), self._rowcount == nrows(self._arrow_table))",
@@ -173,5 +176,215 @@ def install(w):
                 "C03.ctx.else_unchanged": f"implies(not {A_('set_database')} and not {A_('set_schema')} and not {CMD}.startswith('DROP'), {CTX_SAME})",
             },
             props=["C03", "C04", "C05", "C06", "C07", "C13"],
+        )
+    )
+
+
+def install_execute(w):
+    import duckdb
+    import snowflake.connector.errors as sferr
+    from sqlglot import exp
+
+    import fakesnow.cursor
+
+    Cur = fakesnow.cursor.FakeSnowflakeCursor
+    E = exp.Expression
+    M = "fakesnow.cursor.FakeSnowflakeCursor."
+
+    w.add_contract(
+        Contract(
+            M + "_inline_variables",
+            params={"self": Cur, "sql": str},
+            requires=[],
+            result=str,
+            modifies=[],
+            raises={sferr.ProgrammingError: {"when": None, "ensures": {}, "modifies": []}},
+            ensures={
+                # the connection's own variables, applied to exactly the text handed in
+                "C15.inline.delegates": "calls() == old(calls()) + 1 and call_tag(old(calls())) == 'inline_variables' and call_arg1(old(calls())) is self._conn.variables and call_arg2(old(calls())) == sql and result == call_res(old(calls()))",
+            },
+            modifies_ghost=None,
+            props=["C15", "C08", "C07"],
+        )
+        if False
+        else Contract(
+            M + "_inline_variables",
+            params={"self": Cur, "sql": str},
+            requires=[],
+            result=str,
+            modifies=["$ghost:$cl_n", "$ghost:$cl_tag", "$ghost:$cl_a1", "$ghost:$cl_a2", "$ghost:$cl_res"],
+            raises={sferr.ProgrammingError: {"when": None, "ensures": {}, "modifies": []}},
+            ensures={
+                "C15.inline.delegates": "calls() == old(calls()) + 1 and call_tag(old(calls())) == 'inline_variables' and call_arg1(old(calls())) is self._conn.variables and call_arg2(old(calls())) == sql and result == call_res(old(calls()))",
+            },
+            props=["C15", "C08", "C07"],
+        )
+    )
+
+    PS = "old(self._conn._paramstyle)"
+    CLIENT = f"(bool(params) and {PS} in ('pyformat', 'format'))"
+    w.add_contract(
+        Contract(
+            M + "_rewrite_with_params",
+            params={"self": Cur, "command": str, "params": (Opt(UnionT([DictT(None, None), TupleT(elem=None), ListT(None)])), None)},
+            requires=[],
+            result=TupleT(items=[str, None]),
+            modifies=["$ghost:$fmt_n", "$ghost:$fmt_cmd", "$ghost:$fmt_arg", "$ghost:$fmt_out"],
+            raises={TypeError: {"when": None, "ensures": {"C08.rewrite.raise_only_client": CLIENT}, "modifies": ["$ghost:$fmt_n", "$ghost:$fmt_cmd", "$ghost:$fmt_arg", "$ghost:$fmt_out"]}},
+            ensures={
+                # qmark / numeric (server-side) binding and no parameters: command and parameters pass through untouched
+                "C08.rewrite.passthrough": f"implies(not {CLIENT}, result[0] == command and result[1] is params and fmt_count() == old(fmt_count()))",
+                # client-side binding: every value is converted exactly once with the connector's own quoting, then % substitution
+                "C08.rewrite.client": f"implies({CLIENT}, result[1] is None and fmt_count() == old(fmt_count()) + 1 and fmt_cmd() == command)",
+                "C08.rewrite.client_text": f"implies({CLIENT}, result[0] == fmt_out())",
+                "C08.rewrite.seq_values": f"implies({CLIENT} and not is_dict(params), is_tuple(fmt_arg()) and seq_len(fmt_arg()) == seq_len(params) and forall(0, seq_len(params), lambda j: seq_at(fmt_arg(), j) == sf_literal(seq_at(params, j))))",
+                "C08.rewrite.dict_values": f"implies({CLIENT} and is_dict(params), is_dict(fmt_arg()) and dict_len(fmt_arg()) == dict_len(params) and forall(0, dict_len(params), lambda j: dict_key(fmt_arg(), j) == dict_key(params, j) and implies(dict_has(params, dict_key(params, j)), dict_at(fmt_arg(), dict_key(params, j)) == sf_literal(dict_at(params, dict_key(params, j))))))",
+            },
+            props=["C08"],
+        )
+    )
+
+
+def install_execute2(w):
+    import duckdb
+    import snowflake.connector.errors as sferr
+    import sqlglot.errors
+    from sqlglot import exp
+
+    import fakesnow.cursor
+
+    Cur = fakesnow.cursor.FakeSnowflakeCursor
+    E = exp.Expression
+    M = "fakesnow.cursor.FakeSnowflakeCursor."
+    X = w.contracts[M + "_execute"]
+    # wf_args of _execute, restated for a value named `result` (postcondition of _transform)
+    WF = [r.replace("transformed", "result") for r in X.requires if "transformed" in r]
+    w.contracts[M + "_rewrite_with_params"].log = ("rewrite", ["command", "params"])
+
+    w.add_contract(
+        Contract(
+            "fakesnow.transforms_merge.merge",
+            params={"merge_expr": E},
+            requires=[],
+            result=ListT(E),
+            fresh_result=True,
+            modifies=[],
+            may_raise=[AssertionError, sqlglot.errors.ParseError],
+            ensures={"C12.explode.nonempty": "len(result) >= 1", "C12.explode.passthrough": "implies(not isinstance(merge_expr, exp.Merge), len(result) == 1 and result[0] is merge_expr)"},
+            props=["C12"],
+            assumed=True,
+            trusted_base="transforms_merge.merge: contract assumed here, decided by the C12 check",
+        )
+    )
+    w.contracts["fakesnow.transforms.merge"] = w.contracts["fakesnow.transforms_merge.merge"]
+    w.add_contract(
+        Contract(
+            M + "_transform_explode",
+            params={"self": Cur, "expression": E},
+            requires=[],
+            result=ListT(E),
+            fresh_result=True,
+            modifies=[],
+            may_raise=[AssertionError, sqlglot.errors.ParseError],
+            ensures={"C12.explode.nonempty": "len(result) >= 1", "C12.explode.passthrough": "implies(not isinstance(expression, exp.Merge), len(result) == 1 and result[0] is expression)"},
+            props=["C12"],
+        )
+    )
+    tx_ghosts = ["$ghost:$tx_n", "$ghost:$tx_name", "$ghost:$tx_a1", "$ghost:$tx_a2", "$ghost:$treever"]
+    VARS = ["self._conn.variables._variables.$dmap", "self._conn.variables._variables.$dhas", "self._conn.variables._variables.$klen", "self._conn.variables._variables.$kel"]
+    T0 = "old(tx_len())"
+    w.add_contract(
+        Contract(
+            M + "_transform",
+            params={"self": Cur, "expression": E},
+            requires=[],
+            result=E,
+            modifies=tx_ghosts + VARS,
+            may_raise=[NotImplementedError, AssertionError, ValueError, sqlglot.errors.ParseError, KeyError],
+            ensures={
+                # C02: identifier case folding is the first thing that happens to every statement
+                "C02.pipeline.first": f"tx_len() > {T0} and tx_name({T0}) == 'fakesnow.transforms.upper_case_unquoted_identifiers'",
+                # C15: SET / UNSET are applied to this connection's own variables
+                "C15.pipeline.variables": f"tx_applied({T0}, tx_len(), 'fakesnow.transforms.update_variables', self._conn.variables)",
+                # C03: USE is resolved against, and SHOW/keys default to, this connection's current database
+                "C03.pipeline.set_schema": f"tx_applied({T0}, tx_len(), 'fakesnow.transforms.set_schema', old(self._conn.database))",
+                "C18.pipeline.db_path": f"tx_applied({T0}, tx_len(), 'fakesnow.transforms.create_database', old(self._conn.db_path))",
+                "C02.pipeline.before_status": f"tx_before({T0}, tx_len(), 'fakesnow.transforms.upper_case_unquoted_identifiers', 'fakesnow.transforms.set_schema') and tx_before({T0}, tx_len(), 'fakesnow.transforms.upper_case_unquoted_identifiers', 'fakesnow.transforms.update_variables')",
+                # C11: documented ordering constraints between the JSON transforms
+                "C11.pipeline.order": f"tx_before({T0}, tx_len(), 'fakesnow.transforms.trim_cast_varchar', 'fakesnow.transforms.json_extract_cast_as_varchar') and tx_before({T0}, tx_len(), 'fakesnow.transforms.indices_to_json_extract', 'fakesnow.transforms.regex_substr')",
+                "C03.pipeline.show_defaults": f"forall({T0}, tx_len(), lambda j: implies(tx_name(j) in ('fakesnow.transforms.show_schemas', 'fakesnow.transforms.show_objects_tables', 'fakesnow.transforms.show_keys'), tx_arg1(j) is old(self._conn.database)))",
+            },
+            assumed_ensures={"A-WF.wf_args": " and ".join(f"({r})" for r in WF).replace("old(", "(")},
+            props=["C02", "C03", "C11", "C15"],
+        )
+    )
+
+    cur_fields = ["self._arrow_table", "self._arrow_table_fetch_index", "self._rowcount", "self._last_sql", "self._last_params", "self._sqlstate"]
+    ctx_fields = ["self._conn.database", "self._conn.schema", "self._conn.database_set", "self._conn.schema_set"]
+    ghosts = [m for m in X.modifies if m.startswith("$ghost:")] + ["$ghost:$treever"] + ["$ghost:$cl_n", "$ghost:$cl_tag", "$ghost:$cl_a1", "$ghost:$cl_a2", "$ghost:$cl_res", "$ghost:$fmt_n", "$ghost:$fmt_cmd", "$ghost:$fmt_arg", "$ghost:$fmt_out"]
+    heap_any = VARS
+    C0 = "old(calls())"
+    ORDER = (f"calls() >= {C0} + 1 and call_tag({C0}) == 'inline_variables' and call_arg1({C0}) is self._conn.variables and call_arg2({C0}) == command")
+    ORDER2 = (f"calls() >= {C0} + 2 and call_tag({C0} + 1) == 'rewrite' and call_arg1({C0} + 1) == call_res({C0}) and call_arg2({C0} + 1) is params")
+    w.add_contract(
+        Contract(
+            M + "execute",
+            params={"self": Cur, "command": str, "params": (Opt(UnionT([DictT(None, None), TupleT(elem=None), ListT(None)])), None)},
+            requires=["self._duck_conn is self._conn._duck_conn"],
+            result=Cur,
+            modifies=cur_fields + ctx_fields + ghosts + heap_any,
+            raises={
+                sferr.ProgrammingError: {
+                    "when": None,
+                    "ensures": {
+                        "C07.sqlstate.set": "self._sqlstate == exc.sqlstate",
+                        # an undefined session variable is reported before anything is executed (C07, C15)
+                        "C07.undefined_var": f"implies(calls() == {C0}, trace_len() == old(trace_len()) and tx_len() == old(tx_len()))",
+                    },
+                    "modifies": cur_fields + ctx_fields + ghosts + heap_any,
+                },
+                BaseException: {"when": None, "ensures": {"C07.sqlstate.none_otherwise": "implies(not isinstance(exc, snowflake.connector.errors.ProgrammingError), self._sqlstate is None)"}, "modifies": cur_fields + ctx_fields + ghosts + heap_any},
+            },
+            ensures={
+                "C07.sqlstate.reset": "self._sqlstate is None and result is self",
+                # C08: variables are inlined in the command text only, and before the parameters are substituted
+                "C08.order.inline_first": ORDER,
+                "C08.order.then_params": ORDER2,
+                # C16: a no-op'd statement runs nothing but the success status; nothing is parsed or transformed
+                "C16.nop.one_statement": "implies(tx_len() == old(tx_len()), trace_len() == old(trace_len()) + 1)",
+                "C16.nop.is_success_select": "implies(tx_len() == old(tx_len()), trace_at(old(trace_len())) == sql_of(transforms.SUCCESS_NOP, 'duckdb'))",
+                "C16.nop.only_if_configured": "implies(tx_len() == old(tx_len()), bool(self._conn.nop_regexes))",
+                "C05.replace.fresh": "is_fresh(self._arrow_table) and self._arrow_table_fetch_index is None",
+            },
+            loops={1: {"inv": [
+                "tx_len() >= old(tx_len()) + _k",
+                "self._sqlstate is None",
+                "implies(_k > 0, is_fresh(self._arrow_table) and self._arrow_table_fetch_index is None)",
+                "calls() == old(calls()) + 2",
+                f"call_tag({C0}) == 'inline_variables' and call_arg1({C0}) is self._conn.variables and call_arg2({C0}) == pre_command",
+                f"call_tag({C0} + 1) == 'rewrite' and call_arg1({C0} + 1) == call_res({C0}) and call_arg2({C0} + 1) is pre_params",
+            ]}},
+            locals={"exp": E},
+            log=("execute", ["command", "params"], "$ex"),
+            props=["C07", "C08", "C16", "C05", "C15"],
+        )
+    )
+    w.add_contract(
+        Contract(
+            M + "executemany",
+            params={"self": Cur, "command": str, "seqparams": UnionT([DictT(None, None), TupleT(elem=None), ListT(None)])},
+            requires=["self._duck_conn is self._conn._duck_conn"],
+            result=Cur,
+            modifies=cur_fields + ctx_fields + ghosts + heap_any + ["$ghost:$ex_n", "$ghost:$ex_cmd", "$ghost:$ex_par"],
+            raises={
+                NotImplementedError: {"when": None, "ensures": {"C08.executemany.dict_before_any": "is_dict(seqparams) and trace_len() == old(trace_len()) and calls() == old(calls())"}, "modifies": []},
+                BaseException: {"when": None, "ensures": {}, "modifies": cur_fields + ctx_fields + ghosts + heap_any + ["$ghost:$ex_n", "$ghost:$ex_cmd", "$ghost:$ex_par"]},
+            },
+            ensures={
+                "C08.executemany.once_each": "result is self and not is_dict(seqparams) and execs() == old(execs()) + seq_len(seqparams)",
+                "C08.executemany.in_order": "forall(0, seq_len(seqparams), lambda j: exec_cmd(old(execs()) + j) == command and exec_params(old(execs()) + j) is seq_at(seqparams, j))",
+            },
+            loops={1: {"inv": ["execs() == old(execs()) + _k", "forall(0, _k, lambda j: exec_cmd(old(execs()) + j) == command and exec_params(old(execs()) + j) is seq_at(seqparams, j))"]}},
+            props=["C08"],
         )
     )
